@@ -19,6 +19,7 @@ OLD = b"OLD CONTENT OF A PREVIOUSLY SAVED CONFIGURATION"
 def _schema():
     item = Schema()
     item.v = IntField(default=0)
+    item.tok = SecureField(method="xor", default="tok")      # a secret INSIDE a list item (key file of the root)
     schema = Schema(dynamic=True)
     schema.a = IntField(default=1)
     schema.data = BytesField(default=b"\x00\xff")
@@ -64,7 +65,7 @@ class Injector:
                  "dumps output and loads back equal")
 def save_fault_point(k: int, dest_exists: bool) -> bool:
     """
-    pre: -1 <= k <= 24
+    pre: -1 <= k <= 30
     post: _
     """
     fs = FakeFS(files={KEYPATH: KEY}, dirs=["/k", "/cfg"])
@@ -121,17 +122,19 @@ def save_fault_point(k: int, dest_exists: bool) -> bool:
 
 
 NATURAL = ("unencodable", "bad_keyfile", "unknown_format", "missing_keydir", "ok_json", "ok_xml", "ok_yaml",
-           "ok_bson", "ok_pickle", "xml_bad_char", "xml_bad_key", "bson_big_int", "yaml_ok_weird")
+           "ok_bson", "ok_pickle", "xml_bad_char", "xml_bad_key", "bson_big_int", "yaml_ok_weird",
+           "formatter_returns_text", "formatter_returns_none")
 
 
 @obligation(prop="C19", sites=("fault", "nofault"), encodes=ENC, stubs=("FakeFS",),
             budget={"quick": 120, "thorough": 300},
             what="natural failures through the real formatters (value json cannot encode, key file of the wrong "
-                 "size, unknown format name, key file directory missing): destination untouched; successful saves "
+                 "size, unknown format name, key file directory missing, a registered format that returns text or None): "
+                 "destination untouched; successful saves "
                  "in the five real formats write exactly dumps() and load back equal")
 def save_natural_faults(case: int, dest_exists: bool) -> bool:
     """
-    pre: 0 <= case < 13
+    pre: 0 <= case < 15
     post: _
     """
     name = NATURAL[0]
@@ -168,6 +171,23 @@ def save_natural_faults(case: int, dest_exists: bool) -> bool:
             cfg.sub.b = "vertical\x0btab: [x"
         elif name.startswith("ok_"):
             fmt = name[3:]
+        elif name.startswith("formatter_returns_"):
+            # a registered format whose dumps() does not produce bytes: the last serialisation step fails
+            from cincoconfig.core import ConfigFormat
+            product = "<text/>" if name.endswith("text") else None
+
+            class _TextFormat(ConfigFormat):
+                def __init__(self, **kw):
+                    pass
+
+                def dumps(self, config, tree):
+                    return product
+
+                def loads(self, config, content):
+                    return {}
+            ConfigFormat.initialize_registry()
+            ConfigFormat.register("vftext", _TextFormat)
+            fmt = "vftext"
         opens_before = len(fs.opens)
         raised = None
         try:
